@@ -1158,6 +1158,43 @@ def known_findings(rep):
   rep.extra['d3_check_level'] = res
 
 
+
+def cross_curve_state(rep, rng, tier, named):
+  """Fresh EcCurve objects used one after another in the same process WITHOUT the harness
+  touching their private attributes: state (comb cache, tables) must be per object."""
+  from paranoid_crypto.lib import ec_util
+  b = Batch('ec.batchmulg')
+  order = list(named)
+  rng.shuffle(order)
+  order = order[:4] if tier == 'quick' else order
+  fresh = []
+  for ctx in order:
+    a, bb, p, gx, gy, n, h = ctx.params
+    fresh.append((ctx, ec_util.EcCurve(ctx.name + '-fresh', a, bb, p, gx, gy, n, h)))
+  for ctx, _ in fresh:
+    ctx.let(b)
+  for rnd in range(2):
+    for ctx, c in fresh:
+      scalars = [1, 2, rng.randrange(1, ctx.n), ctx.n - 1]
+      before = dict(c._cache)
+      r = fw.call(lambda r: fpl(r), c.BatchMultiplyG, list(scalars))
+      after = dict(c._cache)
+
+      def pred(ctx=ctx, c=c, scalars=scalars):
+        exp = [ctx.ref.mul(ctx.g, int(s) % ctx.n) for s in scalars]
+        try:
+          got = [ctx.ref.norm(P) for P in c.BatchMultiplyG(list(scalars))]
+        except Exception as e:  # noqa
+          return 'BatchMultiplyG raised %r on a fresh %s object after other curves were used' % (e, ctx.name)
+        if got != exp:
+          return ('BatchMultiplyG(%s) on a fresh %s object differs from s*G after other curves were '
+                  'used in the same process' % ([hex(x) for x in scalars], ctx.name))
+        return None
+      b.add('ec.batchmulg %s %s %s' % (ctx.C, fcache(before), L(scalars)),
+            (r + ' ' + fcache(after)) if r.startswith('ok') else r, tag='fresh-object-round%d' % rnd,
+            pred=pred, always=True)
+  rep.absorb(b, b.run())
+
 def correspondence(rep, rng, tier):
   from paranoid_crypto.lib import ec_util
   Watch.install(ec_util)
@@ -1173,6 +1210,7 @@ def correspondence(rep, rng, tier):
     t0 = time.time()
     f(rep, rng, tier, toys, named, known)
     rep.extra['section_wall_s'][f.__name__] = round(time.time() - t0, 1)
+  cross_curve_state(rep, rng, tier, named)
   settle_known(rep, known)
 
 
